@@ -58,6 +58,10 @@ type memConn struct {
 	rc   *rawConn
 	mu   sync.Mutex
 	hist []string
+	// grace: how long a command that exceeded its watchdog may still take before it counts as
+	// stalled (0 = the watchdog alone decides); slow counts commands that needed the grace period
+	grace time.Duration
+	slow  int
 }
 
 func (ms *memServer) dial(id int) *memConn {
@@ -86,15 +90,44 @@ func (mc *memConn) run(line string, timeout time.Duration) (untagged []string, t
 		un, tg, err := mc.rc.cmd(line)
 		ch <- res{un, tg, err}
 	}()
+	var r res
 	select {
-	case r := <-ch:
-		if ne, ok := r.err.(net.Error); ok && ne.Timeout() {
-			return r.un, "", true, nil // the read deadline of the raw connection expired: no completion
-		}
-		return r.un, r.tg, false, r.err
+	case r = <-ch:
 	case <-time.After(timeout):
-		return nil, "", true, nil
+		if mc.grace == 0 {
+			return nil, "", true, nil
+		}
+		// slow is not stalled: keep waiting for a while
+		select {
+		case r = <-ch:
+			mc.mu.Lock()
+			mc.slow++
+			mc.mu.Unlock()
+		case <-time.After(mc.grace):
+			return nil, "", true, nil
+		}
 	}
+	if ne, ok := r.err.(net.Error); ok && ne.Timeout() {
+		// the read deadline of the raw connection expired without a completion; with a grace
+		// period keep reading for the tagged response (a command that is merely slow completes)
+		deadline := time.Now().Add(mc.grace)
+		tag := fmt.Sprintf("T%d", mc.rc.tag)
+		for mc.grace > 0 && time.Now().Before(deadline) {
+			un, tg, err := mc.rc.until(tag)
+			r.un = append(r.un, un...)
+			if err == nil {
+				mc.mu.Lock()
+				mc.slow++
+				mc.mu.Unlock()
+				return r.un, tg, false, nil
+			}
+			if ne, ok := err.(net.Error); !ok || !ne.Timeout() {
+				return r.un, "", false, err
+			}
+		}
+		return r.un, "", true, nil
+	}
+	return r.un, r.tg, false, r.err
 }
 
 func (mc *memConn) history() []string {
